@@ -194,6 +194,16 @@ class Oracle:
                     t == c for t in snap.cleanup.values()):
                 self.tainted[c] = 'was-in-cleanup'
 
+    def node_started(self):
+        """A node start (run_real.sh) empties running/ and cleanup/: a container that was merely linked from
+        cleanup/ and carries no record that it ended (exitinfo / aborted / oom) is, for everything the product can
+        know, a configured container like any other - the statement's 'never started again' is about containers
+        that finished, aborted or ran out of memory, and 'after a synchronisation the running links correspond to the
+        cached manifests' asks for it to run.  Containers with such a record stay tainted."""
+        for c in [c for c, why in self.tainted.items() if why == 'was-in-cleanup']:
+            del self.tainted[c]
+            self._count('was_in_cleanup_taint_dropped_at_node_start')
+
     def before(self):
         """Observe the state right before a handler / actor step (cache
         files may have changed since the last step)."""
